@@ -690,7 +690,7 @@ def d2_sync(ctx):
     ind = [d for d in du.defs if d.var == "intnorm" and d.kind == "assign"]
     if not ind:
         # the reciprocal is computed once in the enclosing function (a value that does not depend on the batch) and read by the worker as a free variable
-        ind = [d for d in DefUse(outer.node).defs if d.var == "intnorm" and d.kind == "assign"]
+        ind = [d for d in DefUse(outer.node).defs if d.var == "intnorm" and d.kind == "assign" and d.var not in {x.var for x in du.defs}]
     if ind:
         iv = ind[0].value
         intnorm_ok = isinstance(iv, ast.BinOp) and isinstance(iv.op, ast.Div) and const_value(iv.left) == (True, 1) and src(iv.right).endswith(".sample2volts")
